@@ -413,7 +413,9 @@ func serializeIPv6HeaderTLVOptions(buf []byte, options []*ipv6HeaderTLVOption, f
 		length += l
 	}
 	if fixLengths {
-		pad := length % 8
+		// pad up to the next multiple of 8 (the remainder itself is only
+		// the right amount when it happens to be 4)
+		pad := (8 - length%8) % 8
 		if pad != 0 {
 			if !dryrun {
 				serializeTLVOptionPadding(buf[length-2:], pad)
